@@ -193,6 +193,13 @@ impl QWorld {
                 }
             }
         }
+        if self.cfg.max_report >= 2 {
+            // overshooting answers: more peers than any configured result count, nearest-first and
+            // farthest-first (a multi-packet NODES answer is handed to the lookup as one list)
+            let peers: Vec<P> = (0..n as P).collect();
+            sets.push(peers.clone());
+            sets.push(peers.into_iter().rev().collect());
+        }
         for p in 0..n as P {
             for s in &sets {
                 ev.push((QEv::Succ(p, s.clone()), 0));
